@@ -438,6 +438,9 @@ fn check_bytes<B: FA, H: HA<B>>(data: &[u8], obs: &mut Obs) -> CheckResult {
     if data.len() % 7 == 0 {
         obs.label("len%7=0");
     }
+    if data.len() > 56 {
+        obs.label("len>56");
+    }
     obs.nontrivial_if(blocks >= 2);
     // totality
     let d1 = catch(|| H::hash(data)).map_err(|p| {
